@@ -9,7 +9,7 @@
    (validate_contract: leaf NotAfter in [start, limit), serverAuth EKU, chain ends in an accepted
    root, every submitted certificate used in order) is an explicit premise.
    Tie: harness/submit posts real DER chains to the real handler (checks/c09.py). *)
-From SL Require Import Submit.Model Submit.Spec Submit.Proofs Submit.Example.
+From SL Require Import Submit.Model Submit.Spec Submit.Proofs Submit.IssuerModel Submit.IssuerProofs Submit.Example.
 Open Scope N_scope.
 
 (* whatever reaches the pool is the RFC 6962 entry of a chain that the validation oracle
@@ -151,6 +151,31 @@ Theorem C09_roots_restart : forall pem_pool l stored,
   get_roots (load_roots pem_pool (rs_stored st)) = get_roots st.
 Proof. exact restart_same_roots. Qed.
 Print Assumptions C09_roots_restart.
+
+(* "every chain certificate becomes a retrievable issuer", for every backend fault schedule
+   (each issuer's Fetch and Upload may fail independently: the pairs (f, u)): when the issuer loop
+   of addLeafToPool succeeds, every chain certificate is stored under its fingerprint; a failed
+   upload caches nothing and the request is answered 500 without reaching the pool; what is
+   retrievable stays retrievable; with a working backend the resubmission succeeds *)
+Theorem C09_issuers_retrievable : forall (sha : list Byte.byte -> list Byte.byte) l st st',
+  issuer_inv sha st -> upload_issuers sha l st = (st', true) ->
+  forall iss f u, In (iss, (f, u)) l ->
+  exists c, lookup_fp (sha iss) (i_store st') = Some c /\ sha c = sha iss.
+Proof. exact issuers_retrievable. Qed.
+Print Assumptions C09_issuers_retrievable.
+
+Theorem C09_issuer_failure_not_cached : forall (sha : list Byte.byte -> list Byte.byte) l st st',
+  upload_issuers sha l st = (st', false) ->
+  exists iss f u, In (iss, (f, u)) l /\ mem_fp (sha iss) (i_known st') = false.
+Proof. exact issuer_failure_not_cached. Qed.
+Print Assumptions C09_issuer_failure_not_cached.
+
+Theorem C09_issuers_stay_retrievable : forall (sha : list Byte.byte -> list Byte.byte) l st st' ok fp c,
+  upload_issuers sha l st = (st', ok) ->
+  lookup_fp fp (i_store st) = Some c -> sha c = fp ->
+  exists c', lookup_fp fp (i_store st') = Some c' /\ sha c' = fp.
+Proof. exact store_persistent. Qed.
+Print Assumptions C09_issuers_stay_retrievable.
 
 (* non-vacuity: a concrete oracle instance meets the contract, and both the acceptance
    condition and its negation occur *)
